@@ -130,3 +130,33 @@ func Good_E1_loop(rs []*e1req, id string) {
 		e1sink(r)
 	}
 }
+
+func e1helper(r *e1req, id string) error {
+	if r.Client == "" {
+		return errors.New("no client")
+	}
+	return e1check(r.ID, id)
+}
+
+// the guard lives in a helper without a declared guarantee: the inferred summary must carry it to the caller
+func Good_E1_helper(r *e1req, id string) {
+	if err := e1helper(r, id); err != nil {
+		return
+	}
+	e1sink(r)
+}
+
+func e1helperLeaky(r *e1req, id string) error {
+	if r.Client == "" {
+		return nil
+	}
+	return e1check(r.ID, id)
+}
+
+// the helper has a success path that skips the guard
+func Bad_E1_leakyhelper(r *e1req, id string) {
+	if err := e1helperLeaky(r, id); err != nil {
+		return
+	}
+	e1sink(r)
+}
